@@ -43,6 +43,31 @@ def closer(step: int | None, at: float | None, then: tuple = ()):
     return inject
 
 
+def double_closer(at: float, mode: str, gap: float):
+    """close() twice: "both" - the second call arrives while the first is still inside its (suspending) CLOSED notification;
+    "abandoned" - the first call is given up by its caller after `gap` seconds (asyncio.wait_for), a second one follows.
+    Whichever call returns, close() has returned: the link is shut, nothing is delivered any more, the tasks finish."""
+    import asyncio
+
+    def inject(s: vloop.Session, state: dict):
+        def fire():
+            state["last_disturbance"] = s.loop.time()
+            if mode == "both":
+                s.user("close", s.client.close)
+                s.loop.call_later(gap, lambda: s.user("close", s.client.close))
+            else:
+                s.user("close", lambda: asyncio.wait_for(s.client.close(), gap))
+                s.loop.call_later(gap + 0.3, lambda: s.user("close", s.client.close))
+            # traffic keeps coming on the old link for a while: none of it may be delivered once a close() has returned
+            pk = cf.valid_packet(state.get("kind", "ebyte"), 2)
+            for k in range(1, 8):
+                s.loop.call_later(gap + 0.05 * k, lambda: [s.feed(c, pk) for c in list(s.readers)[-1:]
+                                                           if not s.readers[c].at_eof() and s.readers[c].exception() is None
+                                                           and not s.writers[c].closed])
+        s.at_time(at, fire)
+    return inject
+
+
 class RefuseLater(cf.Plan):
     """the first connection is accepted, the next n attempts are refused"""
 
@@ -101,6 +126,19 @@ def sessions(tier: str, seed: int, kinds=vloop.CLIENTS):
                 log, _ = cf.run(kind, cf.Plan(**kw), closer(None, t, ("send-now", "connect")), status_cb="slow", t_end=40.0)
                 logs.append(log)
                 meta.append((kind, "close", sname, "slow", f"t={t}"))
+        # close() called twice
+        for mode in ("both", "abandoned"):
+            for gap in (0.05, 0.15, 0.25):
+                for cb in ("slow", "ok", "raise"):
+                    if cb != "slow" and gap != 0.15:
+                        continue
+
+                    def dbl(s, state, mode=mode, gap=gap, kind=kind):
+                        state["kind"] = kind
+                        double_closer(3.0, mode, gap)(s, state)
+                    log, _ = cf.run(kind, cf.Plan(refuse=0), dbl, status_cb=cb, t_end=40.0)
+                    logs.append(log)
+                    meta.append((kind, "close", f"twice-{mode}", cb, f"gap={gap}"))
         # close() while a reconnection caused by a failing send is in progress (the old receive loop is still alive)
         if kind != "actisense":
             for late in ("write-error-late-eof@0.7", "write-error-late-eof@0.1"):
